@@ -1,0 +1,66 @@
+// Copyright (c) DataStax, Inc.
+//
+// Licensed under the Apache License, Version 2.0 (the "License");
+// you may not use this file except in compliance with the License.
+// You may obtain a copy of the License at
+//
+//      http://www.apache.org/licenses/LICENSE-2.0
+//
+// Unless required by applicable law or agreed to in writing, software
+// distributed under the License is distributed on an "AS IS" BASIS,
+// WITHOUT WARRANTIES OR CONDITIONS OF ANY KIND, either express or implied.
+// See the License for the specific language governing permissions and
+// limitations under the License.
+
+package codecs
+
+import (
+	"encoding/binary"
+	"errors"
+	"fmt"
+	"io"
+	"io/ioutil"
+
+	"github.com/datastax/go-cassandra-native-protocol/compression/lz4"
+	pierrec "github.com/pierrec/lz4/v4"
+)
+
+// maxDecompressedBodyLength is the largest frame body the native protocol allows (256MB).
+const maxDecompressedBodyLength = 256 * 1024 * 1024
+
+// lz4Compressor is an LZ4 body compressor that sizes the decompression buffer from the decompressed length that
+// precedes every compressed frame body. The upstream implementation ignores that length and only tries buffers of up to
+// eight times the compressed length, so it fails on any body that compresses better than 8:1.
+type lz4Compressor struct {
+	lz4.Compressor
+}
+
+func (c lz4Compressor) DecompressWithLength(source io.Reader, dest io.Writer) error {
+	var decompressedLength uint32
+	if err := binary.Read(source, binary.BigEndian, &decompressedLength); err != nil {
+		return fmt.Errorf("cannot read compressed length: %w", err)
+	} else if decompressedLength == 0 {
+		// An empty body is followed by a single byte that should be discarded
+		if _, err = io.CopyN(ioutil.Discard, source, 1); err != nil {
+			return fmt.Errorf("cannot read empty message: %w", err)
+		}
+		return nil
+	} else if decompressedLength > maxDecompressedBodyLength {
+		return fmt.Errorf("decompressed length %d exceeds the maximum frame body length", decompressedLength)
+	}
+	compressed, err := ioutil.ReadAll(source)
+	if err != nil {
+		return fmt.Errorf("cannot read compressed message: %w", err)
+	}
+	decompressed := make([]byte, decompressedLength)
+	written, err := pierrec.UncompressBlock(compressed, decompressed)
+	if err != nil {
+		return fmt.Errorf("cannot decompress message: %w", err)
+	} else if written != int(decompressedLength) {
+		return errors.New("cannot decompress message: decompressed length mismatch")
+	}
+	if _, err = dest.Write(decompressed); err != nil {
+		return fmt.Errorf("cannot write decompressed message: %w", err)
+	}
+	return nil
+}
